@@ -13,6 +13,7 @@ import Noodles.Trunc.DriverC13
 import Noodles.Bam.DriverC05
 import Noodles.Bgzf.DriverC14
 import Noodles.Vcf.DriverC09
+import Noodles.Vcf.DriverC09Header
 import Noodles.Sam.DriverC06
 import Noodles.Util.DriverC20
 import Noodles.Io.DriverC12
@@ -37,7 +38,7 @@ def dispatch (line : String) : String :=
   | "c13" :: rest => Trunc.handleC13 rest
   | "c05" :: rest => Bam.Driver.handle rest
   | "c14" :: rest => Bgzf.SM.handleC14 rest
-  | "c09" :: rest => Vcf.Driver.handle rest
+  | "c09" :: rest => (Vcf.DriverHeader.handle? rest).getD (Vcf.Driver.handle rest)
   | "c06" :: rest => Sam.Drv.handleC06 rest
   | "c20" :: rest => Util.handleC20 rest
   | "c12" :: rest => IO.handleC12 rest
